@@ -267,7 +267,7 @@ def check_enum(cx, fn, rep, facts, partial):
             if not C.tail_ok(body):
                 S.bad('SUM-ORD', 'enum-all-unit', 'all-unit form does not yield Equal for equal discriminants', b)
                 allok = False
-            if not (len(unit_flags) == 1 and unit_flags[0][2] is True and check_all_unit_flag(C, unit_flags[0][1], b)):
+            if not ((len(unit_flags) == 1 and unit_flags[0][2] is True and check_all_unit_flag(C, unit_flags[0][1], b)) or all_unit_predicate_guard(S, b)):
                 S.bad('SUM-ORD', 'enum-all-unit-guard',
                       'the form without field comparison is not guarded by a flag that is cleared for every variant with fields', b)
                 allok = False
@@ -296,6 +296,28 @@ def check_enum(cx, fn, rep, facts, partial):
         allok = False
     if allok:
         S.ok('SUM-ORD', 'enum', {'handler': fn.qname})
+
+
+def all_unit_predicate_guard(S, site):
+    """the site is emitted under `if all_unit` where `all_unit` is an immutable
+    `<enum data>.variants.iter().all(|v| matches!(v.fields, Fields::Unit))` (possibly inside `match &ast.data { Data::Enum(data) => .., _ => true }`)"""
+    import re
+    for c in S.eff_ctx(site.ctx):
+        if c['k'] != 'if' or not c['pol'] or c['cond']['k'] != 'Path' or len(c['cond']['path']['segs']) != 1:
+            continue
+        d = c['scope'].lookup(c['cond']['path']['s']) if c.get('scope') is not None else None
+        if d is None or d.kind != 'let' or d.mutable or d.assigns or d.init is None:
+            continue
+        t = es(d.init).replace(' ', '')
+        m = re.match(r'^match&?ast\.data\{Data::Enum\((\w+)\)=>\{?(.*?)\}?,_=>true,?\}$', t)
+        if m:
+            t = m.group(2)
+            dat = m.group(1)
+        else:
+            dat = 'data'
+        if re.match(r'^%s\.variants\.iter\(\)\.all\(\|(\w+)\|matches!\(\1\.fields,(syn::)?Fields::Unit\)\)$' % re.escape(dat), t):
+            return True
+    return False
 
 
 def check_all_unit_flag(C, flagterm, site):
